@@ -1,0 +1,165 @@
+//go:build verif
+
+package verifapi
+
+import (
+	"github.com/tidwall/geojson"
+	"github.com/tidwall/geojson/geometry"
+	"github.com/tidwall/tile38/internal/collection"
+	"github.com/tidwall/tile38/internal/field"
+	"github.com/tidwall/tile38/internal/object"
+)
+
+// Obj is an object as stored in a collection.
+type Obj = object.Object
+
+// Coll wraps an internal/collection.Collection.
+type Coll struct{ c *collection.Collection }
+
+// ObjAttrs are the attributes of an object the collection code looks at.
+type ObjAttrs struct {
+	ID        string
+	Spatial   bool
+	Empty     bool
+	NumPoints int
+	Weight    int
+	Str       string
+	Expires   int64
+	Rect      [4]float64 // minx, miny, maxx, maxy
+}
+
+func mkFields(kv []string) field.List {
+	var l field.List
+	for i := 0; i+1 < len(kv); i += 2 {
+		l = l.Set(field.Make(kv[i], kv[i+1]))
+	}
+	return l
+}
+
+// NewStringObj makes a non-spatial (string) object; kv are field name/value pairs.
+func NewStringObj(id, s string, ex int64, kv ...string) *Obj {
+	return object.New(id, collection.String(s), ex, mkFields(kv))
+}
+
+// NewPointObj makes a simple point object.
+func NewPointObj(id string, x, y float64, ex int64, kv ...string) *Obj {
+	return object.New(id, geojson.NewPoint(geometry.Point{X: x, Y: y}), ex, mkFields(kv))
+}
+
+// NewRectObj makes a rectangle object.
+func NewRectObj(id string, minx, miny, maxx, maxy float64, ex int64, kv ...string) *Obj {
+	return object.New(id, geojson.NewRect(geometry.Rect{
+		Min: geometry.Point{X: minx, Y: miny}, Max: geometry.Point{X: maxx, Y: maxy}}), ex, mkFields(kv))
+}
+
+// ParseGeo parses GeoJSON with the options the server uses by default.
+func ParseGeo(json string) (geojson.Object, error) { return geojson.Parse(json, nil) }
+
+// NewGeoObj makes an object from GeoJSON text.
+func NewGeoObj(id, json string, ex int64, kv ...string) (*Obj, error) {
+	g, err := geojson.Parse(json, nil)
+	if err != nil {
+		return nil, err
+	}
+	return object.New(id, g, ex, mkFields(kv)), nil
+}
+
+// Attrs reads the attributes through the same methods collection.go calls.
+func Attrs(o *Obj) ObjAttrs {
+	r := o.Rect()
+	return ObjAttrs{
+		ID: o.ID(), Spatial: o.IsSpatial(), Empty: o.Geo().Empty(),
+		NumPoints: o.Geo().NumPoints(), Weight: o.Weight(), Str: o.String(),
+		Expires: o.Expires(), Rect: [4]float64{r.Min.X, r.Min.Y, r.Max.X, r.Max.Y},
+	}
+}
+
+func NewColl() *Coll { return &Coll{c: collection.New()} }
+
+func (c *Coll) Set(o *Obj) *Obj       { return c.c.Set(o) }
+func (c *Coll) Delete(id string) *Obj { return c.c.Delete(id) }
+func (c *Coll) Get(id string) *Obj    { return c.c.Get(id) }
+func (c *Coll) Count() int            { return c.c.Count() }
+func (c *Coll) StringCount() int      { return c.c.StringCount() }
+func (c *Coll) PointCount() int       { return c.c.PointCount() }
+func (c *Coll) TotalWeight() int      { return c.c.TotalWeight() }
+func (c *Coll) Bounds() [4]float64 {
+	a, b, cc, d := c.c.Bounds()
+	return [4]float64{a, b, cc, d}
+}
+
+// Scan lists the objects by id (Collection.Scan).
+func (c *Coll) Scan(desc bool) []*Obj {
+	var out []*Obj
+	c.c.Scan(desc, nil, nil, func(o *object.Object) bool { out = append(out, o); return true })
+	return out
+}
+
+// SearchValues lists the objects of the value index (Collection.SearchValues).
+func (c *Coll) SearchValues(desc bool) []*Obj {
+	var out []*Obj
+	c.c.SearchValues(desc, nil, nil, func(o *object.Object) bool { out = append(out, o); return true })
+	return out
+}
+
+// ScanExpires lists the objects of the expiry index (Collection.ScanExpires).
+func (c *Coll) ScanExpires() []*Obj {
+	var out []*Obj
+	c.c.ScanExpires(func(o *object.Object) bool { out = append(out, o); return true })
+	return out
+}
+
+// SpatialEntry is one entry of the R-tree.
+type SpatialEntry struct {
+	Min, Max [2]float32
+	Obj      *Obj
+}
+
+// Spatial lists every entry of the spatial index.
+func (c *Coll) Spatial() []SpatialEntry {
+	var out []SpatialEntry
+	c.c.VerifSpatialScan(func(min, max [2]float32, o *object.Object) bool {
+		out = append(out, SpatialEntry{min, max, o})
+		return true
+	})
+	return out
+}
+
+// IndexLens returns the sizes of the four indexes.
+func (c *Coll) IndexLens() (objs, values, spatial, expires int) { return c.c.VerifIndexLens() }
+
+// Within runs Collection.Within.
+func (c *Coll) Within(q geojson.Object, sparse uint8) []*Obj {
+	var out []*Obj
+	c.c.Within(q, sparse, nil, nil, func(o *object.Object) bool { out = append(out, o); return true })
+	return out
+}
+
+// Intersects runs Collection.Intersects.
+func (c *Coll) Intersects(q geojson.Object, sparse uint8) []*Obj {
+	var out []*Obj
+	c.c.Intersects(q, sparse, nil, nil, func(o *object.Object) bool { out = append(out, o); return true })
+	return out
+}
+
+// RtreeValueDown / RtreeValueUp are collection.rtreeValueDown/Up.
+func RtreeValueDown(d float64) float32 { return collection.VerifRtreeValueDown(d) }
+func RtreeValueUp(d float64) float32   { return collection.VerifRtreeValueUp(d) }
+
+// GeoSearch lists the index candidates of a float64 rectangle (geoSearch).
+func (c *Coll) GeoSearch(r [4]float64) []*Obj {
+	var out []*Obj
+	c.c.VerifGeoSearch(r[0], r[1], r[2], r[3], func(o *object.Object) bool { out = append(out, o); return true })
+	return out
+}
+
+// GeoWithin / GeoIntersects evaluate the index-free predicates the way
+// Collection.Within / Intersects do: o.Geo().Within(q), o.Geo().Intersects(q).
+func GeoWithin(o *Obj, q geojson.Object) bool     { return o.Geo().Within(q) }
+func GeoIntersects(o *Obj, q geojson.Object) bool { return o.Geo().Intersects(q) }
+
+// GeoRect returns q.Rect().
+func GeoRect(q geojson.Object) [4]float64 {
+	r := q.Rect()
+	return [4]float64{r.Min.X, r.Min.Y, r.Max.X, r.Max.Y}
+}
